@@ -102,3 +102,21 @@ Example C01_nonvacuous :
   | _ => False
   end.
 Proof. split; [vm_compute; discriminate|vm_compute; repeat split]. Qed.
+
+(* The store theorems are about ONE merged table; the engine has fifteen.  That merge is sound
+   only if reorg touches every table commit and clearCaches touch (a table left out of reorg
+   would keep rows of abandoned blocks).  BrcGen.TableOrder is reflected from the store events
+   of a real commit / reorg / clearCaches on every run. *)
+From BrcGen Require Import TableOrder.
+From Coq Require Import String.
+Theorem C01_reorg_covers_all_tables :
+  forall t, In t commit_tables \/ In t clear_tables -> In t reorg_tables.
+Proof.
+  assert (H : forallb (fun x => existsb (String.eqb x) reorg_tables) (commit_tables ++ clear_tables) = true)
+    by (vm_compute; reflexivity).
+  rewrite forallb_forall in H. intros t Ht.
+  assert (Hi : In t (commit_tables ++ clear_tables)) by (apply in_or_app; exact Ht).
+  apply H in Hi. apply existsb_exists in Hi. destruct Hi as [y [Hy He]].
+  apply String.eqb_eq in He. subst y. exact Hy.
+Qed.
+Print Assumptions C01_reorg_covers_all_tables.
